@@ -90,6 +90,8 @@ def _job(vec):
     what = "item delimiter %r, quote %r, escape %r, quoting %s" % (delim, quote, esc, "all" if cfg["qall"] else "minimal")
     problems = []
     machinery = []
+    if vec["phase"] == "rawread":
+        return raw_read(vec, mapping, data_format, delim, quote, esc, what)
     if vec["phase"] == "refused":
         if data_format is not None:
             # the loader accepts what the specification refuses: then the round trip must hold for it
@@ -115,6 +117,40 @@ def _job(vec):
     if direct_text != model_text or direct_back != model_back:
         machinery.append("%s, table %r: csv module gives %r / %r, the transcription %r / %r" % (
             what, table, direct_text, direct_back, model_text, model_back))
+    return problems, machinery
+
+
+def raw_read(vec, mapping, data_format, delim, quote, esc, what):
+    """Text that no writer produced: delimited_rows must return what the csv reader automaton of the specification says."""
+    from cutplace import errors, rowio
+    problems, machinery = [], []
+    if data_format is None:
+        return problems, machinery
+    text = concrete(vec["text"], mapping)
+    model = vec["back"]
+    model = ["ok", [[concrete(cell, mapping) for cell in row] for row in model[1]]] if model[0] == "ok" else ["err"]
+    keywords = {"delimiter": delim, "quotechar": quote, "doublequote": esc == quote, "escapechar": None if esc == quote else esc,
+                "quoting": csv.QUOTE_MINIMAL, "skipinitialspace": False, "strict": True}
+    try:
+        direct = ["ok", list(csv.reader(io.StringIO(text, newline=""), **keywords))]
+    except csv.Error:
+        direct = ["err"]
+    if direct != model:
+        machinery.append("%s, text %r: csv.reader gives %r, the transcription %r" % (what, text, direct, model))
+        return problems, machinery
+    for label, source in (("stream", lambda: io.StringIO(text, newline="")),):
+        try:
+            rows, disturbed = core.read_independently(lambda: rowio.delimited_rows(source(), data_format))
+            observed = ["ok", rows]
+            if disturbed is not None and disturbed != rows:
+                observed = ["ok", disturbed]
+        except errors.DataFormatError:
+            observed = ["err"]
+        except Exception as error:  # noqa
+            observed = ["crash", "%s: %s" % (type(error).__name__, error)]
+        if observed != model:
+            problems.append("%s: delimited_rows(%r) gives %r but the text holds %r" % (what, text, observed[1:] and observed[1] or "a refusal",
+                                                                                      model[1] if model[0] == "ok" else "a refusal"))
     return problems, machinery
 
 
@@ -179,6 +215,10 @@ def run(tier, report):
     core.require_coverage(result, ["Refuse", "AddRow", "AddCell", "AddChar", "Write", "Read"], "Delimited")
     report.add_tlc("Delimited %s: 40 configuration classes x all tables within the bounds" % cfg, result)
     vectors = result.by_tag("VEC")
+    raw = core.tlc("MCDelimited", "Delimited_raw.cfg" if tier == "quick" else "Delimited_raw_deep.cfg", timeout=7000)
+    core.require_coverage(raw, ["TypeChar", "ReadRaw"], "Delimited raw")
+    report.add_tlc("Delimited raw reading: every text of up to %d characters x 20 configuration classes" % (4 if tier == "quick" else 6), raw)
+    raw_vectors = [vec for vec in raw.by_tag("VEC") if vec["phase"] == "rawread"]
     pinned = core.tlc("MCDelimited", "Delimited_pinned.cfg", expect_violation=True, coverage=False)
     if pinned.violated != "RoundTrip":
         raise core.MachineryError("the configuration with LoaderRefusesClash = FALSE (D7) found no counterexample")
@@ -186,11 +226,12 @@ def run(tier, report):
                                                  "= escape character / line break", "violated": pinned.violated}]
     jobs = vectors if tier == "thorough" or len(vectors) <= 30000 else rng.sample(sorted(vectors, key=core.json.dumps), 30000)
     jobs = list(jobs) + concrete_product(vectors, rng, 2 if tier == "quick" else 12)
+    jobs += raw_vectors if len(raw_vectors) <= 400000 else rng.sample(sorted(raw_vectors, key=core.json.dumps), 400000)
     outcomes = core.parallel_map(_job, jobs, chunk=400)
     seen = {}
     for vec, (problems, machinery) in zip(jobs, outcomes):
         report.replayed += 1
-        nontrivial = any(any(c != 7 for c in cell) for row in vec["table"] for cell in row) or vec["phase"] == "refused"
+        nontrivial = any(any(c != 7 for c in cell) for row in vec["table"] for cell in row) or vec["phase"] in ("refused", "rawread")
         report.count(core.json.dumps([vec["cfg"], vec["table"], vec.get("mapping"), vec.get("line_delimiter")], sort_keys=True),
                      nontrivial)
         if nontrivial and len(vec["table"]) > 0 and "mapping" in vec:
